@@ -304,3 +304,91 @@ def allMeta(l: "NodeList") -> Bool:
             return True
         case NCons(c, r):
             return isMeta(c) and allMeta(r)
+
+
+# ---------------------------------------------------------------------------------------------------
+# feature predicates used to decide whether a refuted refinement obligation concerns a property
+# (hv.plans `relevance`): the counterexamples of an obligation need the feature iff it is discharged
+# once the feature is excluded
+# ---------------------------------------------------------------------------------------------------
+@spec
+def isTxtN(c: "Node") -> Bool:
+    match c:
+        case Txt(s):
+            return True
+        case _:
+            return False
+
+
+@spec
+def isRawOrRp(c: "Node") -> Bool:
+    match c:
+        case Raw(s):
+            return True
+        case Rp(s, o):
+            return True
+        case _:
+            return False
+
+
+@spec
+def hasTopTxt(l: "NodeList") -> Bool:
+    match l:
+        case NNil():
+            return False
+        case NCons(c, r):
+            return isTxtN(c) or hasTopTxt(r)
+
+
+@spec
+def hasTopRawOrRp(l: "NodeList") -> Bool:
+    match l:
+        case NNil():
+            return False
+        case NCons(c, r):
+            return isRawOrRp(c) or hasTopRawOrRp(r)
+
+
+@spec
+def hasTopMeta(l: "NodeList") -> Bool:
+    match l:
+        case NNil():
+            return False
+        case NCons(c, r):
+            return isMeta(c) or hasTopMeta(r)
+
+
+@spec
+def wsOf(t: "Node") -> Bool:
+    match t:
+        case El(n, ws, a, k):
+            return ws
+        case _:
+            return False
+
+
+@spec
+def nameOf(t: "Node") -> Str:
+    match t:
+        case El(n, ws, a, k):
+            return n
+        case _:
+            return ""
+
+
+@spec
+def kidsOfN(t: "Node") -> "NodeList":
+    match t:
+        case El(n, ws, a, k):
+            return k
+        case _:
+            return NNil()
+
+
+@spec
+def hasAttrs(t: "Node") -> Bool:
+    match t:
+        case El(n, ws, ACons(k, v, tl), kids):
+            return True
+        case _:
+            return False
